@@ -212,6 +212,12 @@ func c12Scenarios(r *hx.Run) []hx.Scenario {
 	if r.Thorough() {
 		shapes = []wp{{1, 1, 3}, {1, 2, 3}, {2, 1, 2}, {2, 2, 2}, {3, 1, 2}}
 	}
+	if !r.Thorough() {
+		// a full queue with a further writer waiting needs three messages: the transport-failure cases get them in quick too
+		for _, cl := range []string{"write-fault", "link-cut", "peer-eof"} {
+			out = append(out, hx.Scenario{Name: fmt.Sprintf("c12:w=3,per=1,close=%s,stall=true", cl), Body: c12Body(3, 1, cl, true), Bounds: simrt.B(0, 0, 0)})
+		}
+	}
 	for _, sh := range shapes {
 		for _, cl := range closers {
 			for _, stall := range []bool{false, true} {
